@@ -1,37 +1,58 @@
 #!/usr/bin/env python3
-"""Apply every seeded patch to /repo (one at a time, reverted straight afterwards), run the quick check of the property it
-targets (plus the extra checks listed in EXTRA), and record the outcome in seeded/<id>/meta.json and seeded/MATRIX.json."""
-import json, os, subprocess, sys, glob, re
+"""For every seeded patch: scratch worktree of /repo HEAD under /tmp (removed afterwards), patch applied there, the quick check of
+the property it targets (plus the extra checks listed in EXTRA) run against it (VERIF_REPO, evidence redirected with VERIF_OUT),
+outcome recorded in seeded/<id>/meta.json and seeded/MATRIX.json.  /repo itself is never modified.
+usage: tools/mutant_matrix.py [-j N] [seed-id ...]"""
+import json, os, subprocess, sys, glob, re, shutil
+from concurrent.futures import ThreadPoolExecutor
 VERIF = os.path.dirname(os.path.dirname(os.path.abspath(__file__)))
-EXTRA = {'regress_F1': ['C05', 'C06', 'C07'], 'regress_F2': ['C07'], 'regress_F3': ['C02', 'C13'], 'regress_F4': ['C01', 'C11', 'C12']}
-only = sys.argv[1:]
-matrix = {}
+EXTRA = {'regress_F1': ['C05', 'C06', 'C07'], 'regress_F2': ['C07'], 'regress_F3': ['C02', 'C13'], 'regress_F4': ['C01', 'C11', 'C12'],
+         'C03_d': ['C03', 'C13'], 'C01_c': ['C01', 'C13']}
+args = sys.argv[1:]
+jobs = 4
+if args[:1] == ['-j']:
+    jobs = int(args[1]); args = args[2:]
+only = args
 mp = os.path.join(VERIF, 'seeded', 'MATRIX.json')
-if os.path.exists(mp):
-    matrix = json.load(open(mp))
-for d in sorted(glob.glob(os.path.join(VERIF, 'seeded', '*'))):
+matrix = json.load(open(mp)) if os.path.exists(mp) else {}
+
+
+def one(d):
     sid = os.path.basename(d)
     patch = os.path.join(d, 'patch.diff')
-    if not os.path.exists(patch) or (only and sid not in only):
-        continue
     checks = EXTRA.get(sid) or [sid.split('_')[0]]
-    assert subprocess.run(['git', '-C', '/repo', 'diff', '--quiet']).returncode == 0, '/repo not clean'
+    wt, out = f'/tmp/mm/wt_{sid}', f'/tmp/mm/out_{sid}'
+    os.makedirs('/tmp/mm', exist_ok=True)
+    shutil.rmtree(wt, ignore_errors=True)
     res = {}
     try:
-        if subprocess.run(['git', '-C', '/repo', 'apply', patch]).returncode != 0:
+        if subprocess.run(['git', '-C', '/repo', 'worktree', 'add', '-q', '--detach', wt, 'HEAD']).returncode != 0:
+            return sid, {c: 'worktree failed' for c in checks}
+        if subprocess.run(['git', 'apply', patch], cwd=wt).returncode != 0:
             res = {c: 'patch does not apply' for c in checks}
         else:
             for c in checks:
-                p = subprocess.run(['./check', c, '--tier', 'quick'], cwd=VERIF, stdout=subprocess.PIPE, stderr=subprocess.STDOUT, text=True)
+                env = dict(os.environ, VERIF_REPO=wt, VERIF_OUT=out)
+                p = subprocess.run(['./check', c, '--tier', 'quick'], cwd=VERIF, env=env, stdout=subprocess.PIPE, stderr=subprocess.STDOUT, text=True)
                 nviol = len(re.findall(r'^VIOLATION', p.stdout, re.M))
                 first = re.search(r'detail: (.*)', p.stdout)
                 res[c] = dict(exit=p.returncode, violations=nviol, first=(first.group(1)[:200] if first else ''))
     finally:
-        subprocess.run(['git', '-C', '/repo', 'checkout', '--', '.'])
-    matrix[sid] = res
-    metap = os.path.join(d, 'meta.json')
-    meta = json.load(open(metap)) if os.path.exists(metap) else dict(property=checks[0], source='reverse of a fix: commit (regression control)')
-    meta['detected_by'] = res
-    json.dump(meta, open(metap, 'w'), indent=1)
-    print(sid, {c: (r if isinstance(r, str) else (r['exit'], r['violations'])) for c, r in res.items()}, flush=True)
-    json.dump(matrix, open(mp, 'w'), indent=1)
+        subprocess.run(['git', '-C', '/repo', 'worktree', 'remove', '--force', wt])
+        shutil.rmtree(out, ignore_errors=True)
+    return sid, res
+
+
+dirs = [d for d in sorted(glob.glob(os.path.join(VERIF, 'seeded', '*')))
+        if os.path.exists(os.path.join(d, 'patch.diff')) and (not only or os.path.basename(d) in only)]
+subprocess.run(['git', '-C', '/repo', 'worktree', 'prune'])
+with ThreadPoolExecutor(jobs) as ex:
+    for sid, res in ex.map(one, dirs):
+        matrix[sid] = res
+        d = os.path.join(VERIF, 'seeded', sid)
+        metap = os.path.join(d, 'meta.json')
+        meta = json.load(open(metap)) if os.path.exists(metap) else dict(property=list(res)[0], source='reverse of a fix: commit (regression control)')
+        meta['detected_by'] = res
+        json.dump(meta, open(metap, 'w'), indent=1)
+        print(sid, {c: (r if isinstance(r, str) else (r['exit'], r['violations'])) for c, r in res.items()}, flush=True)
+        json.dump(matrix, open(mp, 'w'), indent=1, sort_keys=True)
